@@ -675,7 +675,10 @@ class _PairsClassifierMixin(BaseMetricLearner, ClassifierMixin):
       # true labels ordered by decision_function value: (higher first)
       y_ordered = y_valid[scores_sorted_idces]
       # we need to add a threshold that will reject all points
-      scores_sorted = np.concatenate([[scores_sorted[0] + 1], scores_sorted])
+      # (the next representable score: "+ 1" is absorbed by scores of
+      # magnitude 2**53 and more)
+      scores_sorted = np.concatenate([[np.nextafter(scores_sorted[0], np.inf)],
+                                      scores_sorted])
 
       # finds the threshold that maximizes the accuracy:
       cum_tp = stable_cumsum(y_ordered == 1)  # cumulative number of true
